@@ -198,7 +198,14 @@ impl Shared {
                 Ok(n.cast_unsigned())
             }
             // Hit a timeout or got interrupted, we can ignore it.
-            Err(ref err) if matches!(err.raw_os_error(), Some(libc::ETIME | libc::EINTR)) => Ok(0),
+            Err(ref err) if matches!(err.raw_os_error(), Some(libc::ETIME | libc::EINTR)) => {
+                // Submission slots might have become available since the last
+                // successful call, e.g. a future might have been added to the
+                // blocked futures after they we're last woken, so we still
+                // need to wake them.
+                self.wake_blocked_futures();
+                Ok(0)
+            }
             Err(err) => Err(err),
         }
     }
